@@ -123,12 +123,20 @@ type Joined struct {
 	Warnings     []string
 	Inconclusive []string
 	RaceBlocks   int
-	Children     int
-	CasesRun     int
+	perSig       map[string]int
+	// TotalViolations counts every report, including those not kept.
+	TotalViolations int
+	Children        int
+	CasesRun        int
 }
 
 func (j *Joined) AddViolation(v Violation, kind, stderr string) {
-	if len(j.Violations) >= 200 {
+	if j.perSig == nil {
+		j.perSig = map[string]int{}
+	}
+	j.perSig[v.Sig]++
+	j.TotalViolations++
+	if j.perSig[v.Sig] > 3 || len(j.Violations) >= 3000 {
 		return
 	}
 	j.Violations = append(j.Violations, v)
